@@ -4,6 +4,7 @@
 cd "$(dirname "$0")/.."
 one() {
   d=$1; n=$(basename $d)
+  if grep -q '"superseded_by"' $d/meta.json; then echo "$n | superseded (a later repair of the library removed the consequence of this change; see meta.json)"; return; fi
   checks=$(python3 -c "
 import json,sys
 m=json.load(open('$d/meta.json'))
